@@ -523,4 +523,80 @@ theorem C02_stop_playback_in {c c1 : Cli.State} {v : Srv.State} {sid : Nat} {app
       InStepP c1 v1 (Acks.pairs []) (B ++ A').pairs ∧ c1.st = .connected ∧ c1.activeStream = none ∧ mapGet sid v1.streams = none :=
   AckFlow.stop_playback_in hr h
 
+/-! non-vacuity of the `handle_input` theorems: the same scenario through the real entry point with small
+    windows (the server acknowledges every 40 bytes, the client every 60), so acknowledgement packets and
+    events are interleaved everywhere; with them filtered out, the server's events are the expected ones -/
+def demoC2 : Cli.Config := { flashVersion := str "v", bufferLengthMs := 100, windowAckSize := 40, chunkSize := 64, tcUrl := none }
+def demoS2 : Srv.Config := { fmsVersion := str "f", chunkSize := 50, peerBandwidth := 7, windowAckSize := 60, sendOnBwDone := false }
+
+def noAcks (rs : List Srv.Res) : List Srv.Res :=
+  rs.filter fun r => match r with
+    | .ev (.ackReceived _) => false
+    | .out _ => false
+    | _ => true
+
+def countAcks (rs : List Srv.Res) : Nat := (rs.filter fun r => match r with | .ev (.ackReceived _) => true | _ => false).length
+
+def demoRunIn : Option (List Srv.Res × Nat) :=
+  match Srv.new demoS2 5 with
+  | .error _ => none
+  | .ok (v0, rs0) =>
+  match Cli.handleInput ({ cfg := demoC2 } : Cli.State) 5 (bytesS rs0) with
+  | (_, .error _) => none
+  | (c1, .ok q0) =>
+  match Cli.requestConnection c1 6 (str "live/") with
+  | (_, .error _) => none
+  | (c2, .ok r1) =>
+  match Srv.handleInput v0 7 (bytesOfC (q0 ++ [r1])) with
+  | (_, .error _) => none
+  | (v1, .ok q1) =>
+  match Srv.acceptRequest v1 8 0 with
+  | (_, .error _) => none
+  | (v2, .ok rs2) =>
+  match Cli.handleInput c2 9 (bytesS (q1 ++ rs2)) with
+  | (_, .error _) => none
+  | (c3, .ok rs3) =>
+  match Srv.handleInput v2 10 (bytesOfC rs3) with
+  | (_, .error _) => none
+  | (v3, .ok q3) =>
+  match Cli.requestStream c3 11 (.publish (str "key") .live) with
+  | (_, .error _) => none
+  | (c4, .ok r3) =>
+  match Srv.handleInput v3 12 (bytesOfC [r3]) with
+  | (_, .error _) => none
+  | (v4, .ok rs4) =>
+  match Cli.handleInput c4 13 (bytesS (q3 ++ rs4)) with
+  | (_, .error _) => none
+  | (c5, .ok rs5) =>
+  match Srv.handleInput v4 14 (bytesOfC rs5) with
+  | (_, .error _) => none
+  | (v5, .ok q5) =>
+  match Srv.acceptRequest v5 15 1 with
+  | (_, .error _) => none
+  | (v6, .ok rs6) =>
+  match Cli.handleInput c5 16 (bytesS (q5 ++ rs6)) with
+  | (_, .error _) => none
+  | (c6, .ok q6) =>
+  match Interop.publishAll c6 [{ video := true, data := List.replicate 150 7, ts := 40, drop := false },
+                               { video := false, data := [3], ts := 49, drop := true }] with
+  | none => none
+  | some (c7, ps) =>
+  match Srv.handleInput v6 17 (bytesOfC q6 ++ (ps.map (·.bytes)).flatten) with
+  | (_, .error _) => none
+  | (v7, .ok evs) =>
+  match Cli.stop c7 18 false with
+  | (_, .error _) => none
+  | (_, .ok rs8) =>
+  match Srv.handleInput v7 19 (bytesOfC rs8) with
+  | (_, .error _) => none
+  | (_, .ok fin) => some (noAcks (evs ++ fin), countAcks (q1 ++ q3 ++ q5 ++ evs ++ fin))
+
+def isDemoResultIn : Option (List Srv.Res × Nat) → Bool
+  | some ([.ev (.video a k d 40), .ev (.audio a2 k2 [3] 49), .ev (.publishFinished a3 k3)], n) =>
+    a == str "live" && k == str "key" && d == List.replicate 150 7 && a2 == str "live" && k2 == str "key" &&
+      a3 == str "live" && k3 == str "key" && decide (n ≥ 2)
+  | _ => false
+
+example : isDemoResultIn demoRunIn = true := by decide +kernel
+
 end Rml.C02
